@@ -798,8 +798,9 @@ def scan_lib(lib):
             t = s.text.rstrip(';').strip()
             if sc.ctor_calls(s, t) or sc.node_call(t):
                 mentions = True
-            m = re.fullmatch(r'return(?: (.+))?', t)
+            m = re.fullmatch(r'(?:return|yield)(?: (.+))?', t)
             if m:
+                # a generator hands its values out with `yield`
                 r = sc.classify_return(s, m.group(1))
                 rets.append(dict(kind=r[0], x=(r[1] if len(r) > 1 else ''), line=s.line))
         if mentions:
